@@ -25,8 +25,10 @@
    state-level ones that no response of the state has one.  With such links two of
    them fail: C19_link_reuse_refuted, C19_link_diverges_refuted (observations O-L2, O-L1). *)
 From Coq Require Import ZArith NArith List String Bool.
-From GSP Require Import Base.Prelude Loader.Model Loader.Theory.
+From GSP Require Import Base.Prelude Loader.Model Loader.Theory Loader.RoutingKeys.
 Import ListNotations.
+Open Scope string_scope.
+Open Scope list_scope.
 Open Scope Z_scope.
 
 (* Every cache entry was obtained by an earlier load from a 200 response with a JSON body whose
@@ -294,3 +296,141 @@ Theorem C19_link_diverges_refuted :
   List.length (reqlog (fst (load fuel loop_cfg st u_url))) = S fuel.
 Proof. exact link_diverges_refuted. Qed.
 Print Assumptions C19_link_diverges_refuted.
+
+(* ---- oracles of the Go driver lifted into the model (Loader/RoutingKeys.v) ---- *)
+
+(* (a) The target of a rel=alternate link goes through the same scheme dispatch as a direct load:
+   HTTP path under the target's own key (its own cache lookup and entry) / the gateway key, the IPFS
+   client, or rejected — for every state, configuration, target and fuel.  `after_alternate` is what
+   loadDocumentFromHTTP does with the outcome (store under u with u's headers, or pass the error on). *)
+Theorem C19_alternate_routed_by_scheme :
+  forall fuel cfg st u b p t,
+  url_ok cfg u = true -> origin st u = RResp 200 b p (Some t) ->
+  let st1 := log_req st (CHttp, u, now st, RResp 200 b p (Some t)) in
+  match route_of cfg t with
+  | ToHttp k =>
+      fetch (recf (S fuel) cfg) cfg st u =
+      after_alternate cfg u p (now st) (load_http (recf fuel cfg) cfg st1 k)
+  | ToNode r =>
+      fetch (recf (S fuel) cfg) cfg st u = after_alternate cfg u p (now st) (load_node cfg st1 r)
+  | Reject =>
+      fetch (recf (S fuel) cfg) cfg st u = (st1, Err "alternate"%string)
+  end.
+Proof. exact alternate_routed_by_scheme. Qed.
+Print Assumptions C19_alternate_routed_by_scheme.
+
+Theorem C19_alternate_is_full_load :
+  forall fuel cfg st u b p t,
+  url_ok cfg u = true -> origin st u = RResp 200 b p (Some t) ->
+  fetch (recf (S fuel) cfg) cfg st u =
+  after_alternate cfg u p (now st)
+    (load fuel cfg (log_req st (CHttp, u, now st, RResp 200 b p (Some t))) t).
+Proof. exact alternate_is_full_load. Qed.
+Print Assumptions C19_alternate_is_full_load.
+
+Theorem C19_alternate_rejected_target :
+  forall fuel cfg st u b p t,
+  url_ok cfg u = true -> origin st u = RResp 200 b p (Some t) -> route_of cfg t = Reject ->
+  let r := fetch (recf (S fuel) cfg) cfg st u in
+  snd r = Err "alternate"%string /\ cache (fst r) = cache st /\
+  reqlog (fst r) = (CHttp, u, now st, RResp 200 b p (Some t)) :: reqlog st.
+Proof. exact alternate_rejected_target. Qed.
+Print Assumptions C19_alternate_rejected_target.
+
+Theorem C19_alternate_node_target :
+  forall fuel cfg st u b p t r,
+  url_ok cfg u = true -> origin st u = RResp 200 b p (Some t) -> route_of cfg t = ToNode r ->
+  reqlog (fst (fetch (recf (S fuel) cfg) cfg st u)) =
+  (CNode, node_key r, now st, origin st (node_key r)) ::
+  (CHttp, u, now st, RResp 200 b p (Some t)) :: reqlog st.
+Proof. exact alternate_node_target. Qed.
+Print Assumptions C19_alternate_node_target.
+
+(* seeds C19-i / C19-n / C19-q (target handed to the HTTP path directly): an ftp:// target is fetched
+   and an ipfs:// target goes to the HTTP client *)
+Theorem C19_alternate_unrouted_refuted :
+  let cfg := rk_cfg true "http://gw.test" in
+  let st := run 1 cfg [Serve "ftp://a.test/d1" (RResp 200 (BJson 1) (PMaxAge 1000) None);
+                       Serve "ipfs://Qm/x" (RResp 200 (BJson 2) PNone None)] in
+  load 0 cfg st "ftp://a.test/d1" = (st, Err "unsupported-scheme"%string) /\
+  snd (load_http (recf 0 cfg) cfg st "ftp://a.test/d1") = Ok 1 /\
+  new_reqs st (fst (load_http (recf 0 cfg) cfg st "ftp://a.test/d1")) = [(CHttp, "ftp://a.test/d1"%string)] /\
+  new_reqs st (fst (load 0 cfg st "ipfs://Qm/x")) = [(CNode, "ipfs://Qm/x"%string)] /\
+  new_reqs st (fst (load_http (recf 0 cfg) cfg st "ipfs://Qm/x")) = [(CHttp, "ipfs://Qm/x"%string)].
+Proof. exact alternate_unrouted_refuted. Qed.
+Print Assumptions C19_alternate_unrouted_refuted.
+
+(* (b) Cache keys are the URL string as given, fragment included: Set under one string never changes
+   what Get answers under any other string; what was set is found under exactly that string; Get looks
+   the embedded documents and the cache up under exactly the string it is given; and a load can only
+   create or replace the entry of its own key. *)
+Theorem C19_cache_key_is_url :
+  forall cfg st,
+  (forall k' d e st' k, engine_set cfg st k' d e = Some st' -> k <> k' ->
+                        engine_get cfg st' k = engine_get cfg st k) /\
+  (forall k d e st', engine_set cfg st k d e = Some st' -> get_fails cfg = false ->
+                     assoc String.eqb k (embedded cfg) = None -> engine_get cfg st' k = GHit d e) /\
+  (forall k, get_fails cfg = false ->
+             engine_get cfg st k =
+             match assoc String.eqb k (embedded cfg) with
+             | Some d => GHit d (TAt (now st + 3600))
+             | None => match assoc String.eqb k (cache st) with Some (d, e) => GHit d e | None => GMiss end
+             end).
+Proof.
+  intros cfg st. split; [|split].
+  - exact (set_other_key cfg st).
+  - exact (set_then_get cfg st).
+  - exact (get_exact_key cfg st).
+Qed.
+Print Assumptions C19_cache_key_is_url.
+
+Theorem C19_load_touches_own_key :
+  forall fuel cfg st u st' out k',
+  (forall k code b p t, origin st k <> RResp code b p (Some t)) ->
+  load fuel cfg st u = (st', out) ->
+  (forall k, route_of cfg u = ToHttp k -> k' <> k) ->
+  assoc String.eqb k' (cache st') = assoc String.eqb k' (cache st).
+Proof. exact load_touches_own_key. Qed.
+Print Assumptions C19_load_touches_own_key.
+
+(* seed C19-j (Get/Set strip "#fragment", embedded documents stay under the raw URL) *)
+Theorem C19_fragment_stripping_refuted :
+  let cfg := {| cache_mode_of := CacheMemory [("https://schema.example/kyc.jsonld#v2"%string, 902)];
+                ipfs_client := false; gateway := ""%string; url_ok := fun _ => true; cc := cc_reference |} in
+  engine_get cfg init "https://schema.example/kyc.jsonld#v2" = GHit 902 (TAt 3600) /\
+  get_stripped cfg init "https://schema.example/kyc.jsonld#v2" = GMiss /\
+  engine_set cfg init "https://schema.example/kyc.jsonld#v2" 7 (TAt 1000) = Some init /\
+  (exists st', set_stripped cfg init "https://schema.example/kyc.jsonld#v2" 7 (TAt 1000) = Some st' /\
+               cache st' = [("https://schema.example/kyc.jsonld"%string, (7, TAt 1000))]) /\
+  (exists st', set_stripped cfg init "http://a.test/d1#v1" 4 (TAt 3000) = Some st' /\
+               get_stripped cfg st' "http://a.test/d1#v2" = GHit 4 (TAt 3000)) /\
+  (exists st', engine_set cfg init "http://a.test/d1#v1" 4 (TAt 3000) = Some st' /\
+               engine_get cfg st' "http://a.test/d1#v2" = GMiss).
+Proof. exact fragment_stripping_refuted. Qed.
+Print Assumptions C19_fragment_stripping_refuted.
+
+(* (c) Every Cache-Control line of a response reaches the library: the one line it reads
+   (Header.Get after the join of f797550) is the comma-joined text of all lines, so the loader's
+   decisions on a multi-line header set are its decisions on the joined line. *)
+Theorem C19_library_sees_every_line :
+  forall h, lib_view (PRaw h) = PRaw [List.concat h].
+Proof. exact library_sees_every_line. Qed.
+Print Assumptions C19_library_sees_every_line.
+
+Theorem C19_multi_line_decisions :
+  forall cfg h,
+  cc_store cfg (PRaw h) = cc_store cfg (PRaw [List.concat h]) /\
+  cc_nocache cfg (PRaw h) = cc_nocache cfg (PRaw [List.concat h]) /\
+  cc_lifetime cfg (PRaw h) = cc_lifetime cfg (PRaw [List.concat h]) /\
+  storable cfg (PRaw h) = storable cfg (PRaw [List.concat h]).
+Proof. exact multi_line_decisions. Qed.
+Print Assumptions C19_multi_line_decisions.
+
+(* seed C19-l (join only when more than two lines) and the tree before f797550 (never joined):
+   with two lines the library gets the first line only *)
+Theorem C19_join_off_by_one_refuted :
+  first_line (join_cc [[1]; [2]]) = [1; 2] /\
+  first_line (join_cc_more_than_two [[1]; [2]]) = [1] /\
+  first_line [[1]; [2]] = [1].
+Proof. exact join_off_by_one_refuted. Qed.
+Print Assumptions C19_join_off_by_one_refuted.
